@@ -46,12 +46,14 @@ def __block_grad_B(
     container): the cache lives and dies with that transient state, which both
     avoids rebuilding the identical ``grad``/``B`` twice and cannot accumulate.
     """
-    cached = getattr(state, _BLOCK_GRAD_B_ATTR, None)
-    if cached is not None:
-        return cached
-
     groupElem = state.groupElem
     matrixType = state.matrixType
+
+    # the operators live at the Gauss points of state.matrixType (which has a setter)
+    cached = getattr(state, _BLOCK_GRAD_B_ATTR, None)
+    if cached is not None and cached[0] == matrixType:
+        return cached[1]
+
     dN_e_pg = groupElem.Get_dN_e_pg(matrixType)
     De_e_pg = state.Compute_De()
 
@@ -68,7 +70,7 @@ def __block_grad_B(
 
     B_e_pg = De_e_pg @ grad_e_pg
     result = (grad_e_pg, B_e_pg)
-    setattr(state, _BLOCK_GRAD_B_ATTR, result)
+    setattr(state, _BLOCK_GRAD_B_ATTR, (matrixType, result))
     return result
 
 
